@@ -315,11 +315,7 @@ def run(ctx):
     found |= part_fprinter_ext(ctx)
     parts = []
     for modname in ('props.c17_fp', 'props.c17_db'):
-        try:
-            mod = importlib.import_module(modname)
-        except ImportError:
-            ctx.notes.append('%s not present' % modname)
-            continue
+        mod = importlib.import_module(modname)          # a missing or broken part fails the check (no silent degradation)
         parts.append(modname)
         found |= bool(mod.part(ctx))
     ctx.coverage['rule'] = ('paired bit/count fingerprinters on the same gridded (molecule, conformer, options) input at bits in {2^32, 4096, 1024, 32}: model tie for both, and on the '
